@@ -81,9 +81,15 @@ class NumpyQuantity(Generic[MagnitudeT], PlainQuantity[MagnitudeT]):
         care of the units.
         """
 
-        # Set input units if needed
+        # Set input units if needed. The conversion must not alter self, so the
+        # method is looked up again on the magnitude of a converted copy.
         if func.__name__ in set_units_ufuncs:
-            self.__ito_if_needed(set_units_ufuncs[func.__name__][0])
+            converted = self.__to_if_needed(set_units_ufuncs[func.__name__][0])
+            if converted is not self:
+                func = getattr(
+                    _to_magnitude(converted._magnitude, force_ndarray_like=True),
+                    func.__name__,
+                )
 
         value = func(*args, **kwargs)
 
@@ -207,11 +213,11 @@ class NumpyQuantity(Generic[MagnitudeT], PlainQuantity[MagnitudeT]):
         """
         return np.prod(self, *args, **kwargs)
 
-    def __ito_if_needed(self, to_units):
+    def __to_if_needed(self, to_units):
         if self.unitless and to_units == "radian":
-            return
+            return self
 
-        self.ito(to_units)
+        return self.to(to_units)
 
     def __len__(self) -> int:
         return len(self._magnitude)
